@@ -44,7 +44,8 @@ type cancelCtx struct {
 func (c *cancelCtx) Deadline() (time.Time, bool) { return c.parent.Deadline() }
 func (c *cancelCtx) Done() *vchan.Chan[struct{}] { return c.done }
 func (c *cancelCtx) Err() error {
-	vrt.Yield("ctx.Err")
+	vrt.ShimYield("ctx.Err")
+	vrt.Touch(c.done)
 	return c.err
 }
 func (c *cancelCtx) Value(key any) any { return c.parent.Value(key) }
@@ -77,7 +78,7 @@ func WithCancel(parent Context) (Context, CancelFunc) {
 		if vrt.Aborted() {
 			return
 		}
-		vrt.Yield("ctx.cancel")
+		vrt.ShimYield("ctx.cancel")
 		c.cancel(Canceled)
 	}
 }
